@@ -95,8 +95,45 @@ def unmut_all(t):
     return rewrite(t, lambda x: unmut(x) if x[0] == "mut" else None)
 
 
+_LOOP_BODY = {}
+
+
+def loop_body_closure(F, path):
+    """a closure handed to try_fold / fold / for_each / try_for_each by its parent is that parent's loop body:
+    returns (parent path, initial accumulator term or None) or None"""
+    if path in _LOOP_BODY:
+        return _LOOP_BODY[path]
+    out = None
+    if "{closure" in path:
+        for p_, pb in F.bodies.items():
+            if path not in pb.closures_created():
+                continue
+            ptm = Terms(pb)
+            for c in pb.calls():
+                if c.callee and re.search(r"Iterator>?::(try_fold|fold|for_each|try_for_each)$", c.callee.split("{")[0]):
+                    cl = ptm.operand(c.args[-1], c.bb)
+                    if cl[0] == "closure" and cl[1] == path:
+                        init = unmut_all(nosite(deep_strip(ptm.operand(c.args[1], c.bb)))) if len(c.args) == 3 else None
+                        out = (p_, init)
+    _LOOP_BODY[path] = out
+    return out
+
+
 def site_key(s):
     args = arg_terms(s)
+    lb = loop_body_closure(s["b"].facts, s["fn"])
+    if lb is not None:
+        # written as a fold over the collection instead of a loop: the site is keyed as a site of the parent's loop, the
+        # accumulator parameter read as the value the fold starts from
+        parent, init = lb
+        if init is not None and init[0] == "tuple":
+            args = [rewrite(a, lambda y: init[1][int(y[2])] if y[0] == "field" and y[1] == ("arg", 2) and str(y[2]).isdigit() and int(y[2]) < len(init[1]) else None) for a in args]
+        elif init is not None:
+            args = [rewrite(a, lambda y: init if y == ("arg", 2) else None) for a in args]
+        what = re.sub(r"<[^<>]*>", "", s["what"])
+        what = re.sub(r"<[^<>]*>", "", what).split("::")[-1] if s["kind"] != "assert" else s["what"]
+        d = "; ".join(short(loopfree(a))[:70] for a in args[:2])
+        return "%s|%s:%s|%s" % (short_fn_name(parent), s["kind"], what, d)
     what = re.sub(r"<[^<>]*>", "", s["what"])
     what = re.sub(r"<[^<>]*>", "", what).split("::")[-1] if s["kind"] != "assert" else s["what"]
     d = "; ".join(short(loopfree(a))[:70] for a in args[:2])
@@ -343,17 +380,18 @@ def json_object_provenance(F, body, raw, depth=0):
             return json_object_provenance(F, body, t[2][0], depth + 1)
         return None
     if t[0] == "field" and t[1] == ("arg", 1) and body.kind == "closure" and str(t[2]).isdigit():
+        # the function(s) that create this closure: its lexical parent, or the functions a helper holding it was inlined into
         par = body.path.rsplit("::{closure", 1)[0]
-        pb = F.bodies.get(par)
-        if pb is None:
-            return None
-        ptm = Terms(pb)
-        for pbb, blk in enumerate(pb.blocks):
-            for pos, st in enumerate(blk["stmts"]):
-                if st["k"] == "assign" and st["rv"]["k"] == "agg" and st["rv"].get("agg") == "closure" and st["rv"].get("closure") == body.path:
-                    r = json_object_provenance(F, pb, ptm.operand(st["rv"]["fields"][int(t[2])], pbb, pos), depth + 1)
-                    return ("captured: " + r) if r else None
-        return None
+        creators = [F.bodies[par]] if par in F.bodies else []
+        creators += [pb_ for p_, pb_ in F.bodies.items() if pb_ not in creators and body.path in pb_.closures_created()]
+        rs = []
+        for pb in creators:
+            ptm = Terms(pb)
+            for pbb, blk in enumerate(pb.blocks):
+                for pos, st in enumerate(blk["stmts"]):
+                    if st["k"] == "assign" and st["rv"]["k"] == "agg" and st["rv"].get("agg") == "closure" and st["rv"].get("closure") == body.path:
+                        rs.append(json_object_provenance(F, pb, ptm.operand(st["rv"]["fields"][int(t[2])], pbb, pos), depth + 1))
+        return ("captured: " + rs[0]) if rs and all(rs) else None
     if t[0] == "arg" and body.kind != "closure" and known_functions() and body.path not in known_functions():
         # a parameter of a helper that did not exist when the rules were written: every call site must pass an object
         rs = []
